@@ -487,7 +487,18 @@ class ExprMixin:
             raise NotFormed('== on static values')
         ea, eb = is_('Empty', a), is_('Empty', b)
 
+        info = self.reg.classes.get('EmptyCell')
+        has_ne = bool(info and '__ne__' in info['methods'])
+
         def via_empty(s, self_v, other):
+            if negate and has_ne:
+                return self.seq(self.call_empty_method(s, '__ne__', self_v, other),
+                                lambda s2, r: [(s2, V.Bool(self.truth(r)))])
+            if negate:
+                # no __ne__ in the class: int.__ne__ answers for numbers and NotImplemented otherwise; the reflected
+                # call answers NotImplemented too and Python falls back to identity (!= is then True)
+                o = other
+                return [(s, V.Bool(z3.If(T.is_num(o), T.real_of(o) != 0, z3.BoolVal(True))))]
             return self.seq(self.call_empty_method(s, '__eq__', self_v, other),
                             lambda s2, r: fin(s2, self.truth(r)))
         if is_('List', a) is not None and self._mentions_list_eq_needed(a, b):
